@@ -96,7 +96,8 @@ def cases(tier, seed, info):
                 items.append(rng.choice(alphabet))
             else:
                 items.append(dict(cache='other', mod=rng.choice(['damaged', 'e500', 'm2c00', 'plain', 'badheader',
-                                                                 'bmcproc', 'lp', 'hidden', 'regmsg', 'regmsg', 'regmsg', 'regmsg', 'ilog', 'ilog']), beh='-',
+                                                                 'bmcproc', 'lp', 'hidden', 'regmsg', 'regmsg', 'regmsg', 'regmsg', 'ilog', 'ilog',
+                                                                 'longkeys', 'longkeys', 'longkeys']), beh='-',
                                   plugins=rng.random() < .7))
         out.append(dict(kind='history', origin='random', seed=seed * 17 + k + 777, items=items))
     info['random_histories'] = m
@@ -204,6 +205,20 @@ def realise(rng, item, serial):
                 s2 = genpel.gen_src(rng, 'SS', ncallouts=-1, kind=kind)
                 s2['ascii'], s2['wc'] = encode.text(ref, 32, 0x20), 9
                 secs.append(s2)
+        elif mod == 'longkeys':
+            # BMC JSON user data with member names of every length (far beyond the column values are aligned at),
+            # nested to different depths, next to very short ones
+            def obj(depth):
+                d_ = {}
+                for _ in range(rng.randrange(1, 4)):
+                    key = genpel.rtext(rng, rng.choice([1, 2, 20, 25, 26, 27, 30, 40, 60, rng.randrange(1, 70)]))
+                    d_[key] = obj(depth + 1) if depth < 3 and rng.random() < .4 else rng.choice([1, 'v', genpel.rtext(rng, 5)])
+                return d_
+            raw = json.dumps(obj(0)).encode()
+            raw += b'\x00' * ((-len(raw)) % 4)
+            u = genpel.hdr(rng, 'UD')
+            u.update(kind='UD', comp=[0x20, 0x00], sub=1, ver=1, payload=list(raw))
+            secs = [u] + ([genpel.gen_ud(rng, route='noparser')] if rng.random() < .5 else [])
         elif mod == 'lp':
             secs = [genpel.gen_lp(rng, ntargets=rng.randrange(1, 6), namelen=8), genpel.gen_src(rng, 'PS')]
         else:
@@ -274,12 +289,8 @@ def _history(case):
         data, sent = pels[k]
         plug = it.get('plugins', True)
         res = pelrun.decode(data, plug)
-        if res['doc'] is not None:
-            dg = project.digest(res['doc'])
-            text = json.dumps(res['doc'])
-        else:
-            dg = res['outcome'] + ':' + res['detail'].split(':')[0]
-            text = ''
+        dg = pelrun.full_digest(res)
+        text = json.dumps(res['doc']) if res['doc'] is not None else ''
         foreign = []
         for j, (_, s2) in enumerate(pels):
             if pels[j][0] != data:
@@ -307,7 +318,7 @@ def _dir(case):
     alphabet = [dict(cache=c, mod=mm, beh=b, plugins=True) for c in ('ud', 'src', 'co', 'osrc') for mm in ('m1', 'm2') for b in BEHSEL]
     files = []
     for k in range(case['n']):
-        it = rng.choice(alphabet) if k % 2 else dict(cache='other', mod=rng.choice(['e500', 'plain', 'lp', 'regmsg', 'ilog']), beh='-')
+        it = rng.choice(alphabet) if k % 2 else dict(cache='other', mod=rng.choice(['e500', 'plain', 'lp', 'regmsg', 'ilog', 'longkeys', 'longkeys']), beh='-')
         data, sent = realise(rng, it, k)
         eid = sent[0]
         name = '%02d_%s' % (k, eid)
@@ -315,11 +326,23 @@ def _dir(case):
         files.append((name, eid))
 
     def by_eid(out):
+        # every document of the array with the exact text it was printed as
+        import hashlib
+        res, dec, pos = {}, json.JSONDecoder(), out.find('[') + 1
         try:
-            docs = json.loads(out)
-        except ValueError:
+            json.loads(out)
+            while True:
+                while pos < len(out) and out[pos] in ' \n\r\t,':
+                    pos += 1
+                if pos >= len(out) or out[pos] == ']':
+                    break
+                x, end = dec.raw_decode(out, pos)
+                res[x['Private Header']['Entry Id']] = project.digest(x) + '/' + hashlib.sha1(
+                    out[pos:end].encode('utf-8', 'surrogatepass')).hexdigest()[:12]
+                pos = end
+        except (ValueError, KeyError, TypeError):
             return None
-        return {x['Private Header']['Entry Id']: project.digest(x) for x in docs}
+        return res
     a = by_eid(seams.run_cli(['-p', d, '-a', '-E'])['out'])
     ar = by_eid(seams.run_cli(['-p', d, '-a', '-E', '-r'])['out'])
     docs, complete = [], a is not None and ar is not None
@@ -327,7 +350,8 @@ def _dir(case):
         seams.clear_plugin_caches(unload=True)
         one = seams.run_cli(['-f', os.path.join(d, name), '-E'])['out']
         try:
-            f = project.digest(json.loads(one))
+            import hashlib
+            f = project.digest(json.loads(one)) + '/' + hashlib.sha1(one.strip().encode('utf-8', 'surrogatepass')).hexdigest()[:12]
         except ValueError:
             f = 'no document'
         key = '0x' + eid
